@@ -3829,3 +3829,59 @@ mod tests {
         println!("✓ clear_vertex_keys() correctly clears and allows rebuilding of vertex keys");
     }
 }
+
+/// Verification-only raw mutators (fault injection). Compiled only with `verif-hooks`.
+#[cfg(feature = "verif-hooks")]
+#[doc(hidden)]
+impl<T, U, V, const D: usize> Cell<T, U, V, D>
+where
+    U: DataType,
+    V: DataType,
+{
+    /// Overwrite one vertex slot without touching neighbours or offsets.
+    pub fn verif_set_vertex_slot(&mut self, slot: usize, key: VertexKey) -> bool {
+        match self.vertices.get_mut(slot) {
+            Some(v) => {
+                *v = key;
+                true
+            }
+            None => false,
+        }
+    }
+
+    /// Swap two vertex slots WITHOUT swapping the corresponding neighbour slots.
+    pub fn verif_swap_vertex_slots_only(&mut self, a: usize, b: usize) -> bool {
+        if a < self.vertices.len() && b < self.vertices.len() {
+            self.vertices.swap(a, b);
+            true
+        } else {
+            false
+        }
+    }
+
+    /// Overwrite one neighbour slot (allocating the buffer if absent).
+    pub fn verif_set_neighbor_slot(&mut self, slot: usize, key: Option<CellKey>) -> bool {
+        let buf = self.neighbors.get_or_insert_with(|| {
+            let mut b = NeighborBuffer::new();
+            b.resize(D + 1, None);
+            b
+        });
+        match buf.get_mut(slot) {
+            Some(n) => {
+                *n = key;
+                true
+            }
+            None => false,
+        }
+    }
+
+    /// Drop the whole neighbour buffer.
+    pub fn verif_clear_neighbors(&mut self) {
+        self.neighbors = None;
+    }
+
+    /// Overwrite the cell UUID without validation.
+    pub fn verif_set_uuid_raw(&mut self, uuid: Uuid) {
+        self.uuid = uuid;
+    }
+}
